@@ -149,15 +149,71 @@ pub fn check_frame(r: &mut Report, bytes: &[u8], stats: &mut BTreeMap<String, Ke
     }
 }
 
+/// Quantities as jet1090 and decode1090 report them: after decode_positions has filled in the position from the
+/// aircraft's history (pairs, the previous fix, the receiver reference). Every leaf of every record is judged.
+fn positioned_case(r: &mut Report, frames: &[Vec<u8>], stamps: &[f64], reference: Option<[f64; 2]>, cls: &str, what: &str) {
+    use rs1090::decode::cpr::{decode_positions, Position};
+    use rs1090::decode::TimedMessage;
+    let mut v: Vec<TimedMessage> = vec![];
+    for (f, ts) in frames.iter().zip(stamps) {
+        if let Ok(Ok(m)) = guarded(|| Message::try_from(f.as_slice())) {
+            v.push(TimedMessage { timestamp: *ts, frame: f.clone(), message: Some(m), metadata: vec![], decode_time: None });
+        }
+    }
+    let rp = json!({"origin": "positioned", "frames": frames.iter().map(|f| hexs(f)).collect::<Vec<_>>(), "timestamps": stamps, "reference": reference.map(|p| p.to_vec()), "class": cls});
+    if let Err((loc, m)) = guarded(|| decode_positions(&mut v, reference.map(|p| Position { latitude: p[0], longitude: p[1] }), &None)) {
+        r.violation(&format!("C08:panic:decode_positions:{}", crate::util::short_loc(&loc)), format!("decode_positions panicked ({what}): {}", crate::util::msg_class(&m)), rp);
+        return;
+    }
+    for t in &v {
+        r.evaluations += 1;
+        let Some(msg) = &t.message else { continue };
+        let Ok(rec) = recorder::record(msg) else { continue };
+        let f = recorder::flatten(&rec);
+        let mut ok = true;
+        let mut positioned = false;
+        for (path, key, leaf) in &f.leaves {
+            if key == "latitude" {
+                positioned = true;
+            }
+            if let Some(why) = judge(key, leaf) {
+                ok = false;
+                r.violation(&format!("C08:positioned:{key}:{cls}"), format!("record of {} after decode_positions ({what}): {why} at {path}", hexs(&t.frame)), rp.clone());
+            }
+        }
+        if ok {
+            r.class(&format!("positioned:{cls}"));
+            if positioned {
+                r.class(&format!("positioned:{cls}:with-decoded-position"));
+                r.distinct(fnv(&t.frame) ^ 0x0808);
+            }
+        }
+    }
+}
+
 pub fn run(a: &Args, r: &mut Report) {
-    r.rule = "accepted frames from the structure-aware generators (every DF, every TC/subtype, every Comm-B register built valid-biased, all CF of DF18), each numeric field boundary-biased (0, 1, max, max-1, single bit, sign bit, mid); every leaf of the recorded key->value tree is judged by the per-key domain table; thorough adds exhaustive 16-bit windows over ME / MB fields. distinct_nontrivial = distinct ACCEPTED frames with all leaves in range".into();
+    r.rule = "accepted frames from the structure-aware generators (every DF, every TC/subtype, every Comm-B register built valid-biased, all CF of DF18), each numeric field boundary-biased (0, 1, max, max-1, single bit, sign bit, mid); every leaf of the recorded key->value tree is judged by the per-key domain table; thorough adds exhaustive 16-bit windows over ME / MB fields; positioned family: histories of 2-7 position reports of one aircraft (both parities, gaps of 0.2-3 s, 10-15 s, 30-170 s, airborne and surface, with and without reference, at poles, polar caps, 87 degrees, NL transitions, equator, mid latitudes) judged after decode_positions has filled in the position. distinct_nontrivial = distinct ACCEPTED frames with all leaves in range".into();
     let mut stats = BTreeMap::new();
     if let Some(p) = &a.replay {
         let v: serde_json::Value = serde_json::from_str(&std::fs::read_to_string(p).unwrap()).unwrap();
+        if let Some(fs) = v["replay"]["frames"].as_array() {
+            let frames: Vec<Vec<u8>> = fs.iter().filter_map(|x| hex::decode(x.as_str()?).ok()).collect();
+            let stamps: Vec<f64> = v["replay"]["timestamps"].as_array().map(|t| t.iter().filter_map(|x| x.as_f64()).collect()).unwrap_or_default();
+            let reference = v["replay"]["reference"].as_array().and_then(|p| Some([p.first()?.as_f64()?, p.get(1)?.as_f64()?]));
+            positioned_case(r, &frames, &stamps, reference, v["replay"]["class"].as_str().unwrap_or("replay"), "replay");
+            return;
+        }
         check_frame(r, &hex::decode(v["replay"]["frame"].as_str().unwrap()).unwrap(), &mut stats, "replay");
         return;
     }
     let mut rng = Rng::new(a.seed, a.shard, "C08");
+    {
+        let tr = crate::oracle::geo::transitions();
+        for _ in 0..a.budget(60_000, 6_000_000) {
+            let p = super::c07::positioned_plan(&mut rng, &tr);
+            positioned_case(r, &p.frames, &p.stamps, p.reference, p.cls, &p.what);
+        }
+    }
     let n = a.budget(1_600_000, 120_000_000);
     for i in 0..n {
         let df = *rng.pick(&[17u8, 17, 17, 18, 18, 20, 21, 20, 21, 20, 21, 4, 5, 0, 16, 11, (i % 32) as u8]);
@@ -231,6 +287,10 @@ pub fn run(a: &Args, r: &mut Report) {
         per_key.insert(k.clone(), json!(s.n));
     }
     if !a.asan {
-        r.extra.insert("mandatory".into(), json!(TABLE_KEYS.iter().map(|k| format!("key:{k}")).collect::<Vec<_>>()));
+        let mut mand: Vec<String> = TABLE_KEYS.iter().map(|k| format!("key:{k}")).collect();
+        for c in ["pole", "polar-cap(>87)", "87-degrees", "nl-transition", "equator", "mid-latitude"] {
+            mand.push(format!("positioned:{c}:with-decoded-position"));
+        }
+        r.extra.insert("mandatory".into(), json!(mand));
     }
 }
